@@ -8,7 +8,7 @@ import vlib, props
 from vlib import Infra
 
 IDS = ['C20']
-KINDS = ['stop-hangs', 'task-lost', 'tip-not-processed', 'task-refused', 'schedule-not-followed', 'died', 'timeout', 'step-error']
+KINDS = ['free-not-quiescent', 'trace-rejected', 'stop-hangs', 'task-lost', 'tip-not-processed', 'task-refused', 'schedule-not-followed', 'died', 'timeout', 'step-error']
 props.KINDS['C20'] = KINDS
 AMBIGUOUS_AFTER_CLOSE = ('WTake', 'HBlock', 'Suspend', 'Resume')   # a select with quit closed AND another ready case picks at random
 
@@ -115,6 +115,14 @@ def check(pid, tier, scratch, replay):
         raise Infra('%d of %d traces of the free-running system are not behaviours of spec/Stop.tla (first: %d of %d events explained, next event %s; trace kept in %s): '
                     'the specification no longer describes the code - no verdict' % (len(rejected), len(tr), j['maxl'] - 1, len(r['lines']),
                     r['lines'][j['maxl'] - 1] if 0 < j['maxl'] <= len(r['lines']) else None, p))
+    # liveness with storage faults (code -> spec, spec/WalletTrace.tla): follower and worker run freely with imports and
+    # removals while up to three storage calls fail at random; after a failed update the worker must resume the
+    # follower and re-queue its task, every announced tip must still be processed and every task must still finish
+    tjobs, tres, tjudged, tstates = props.trace_stage(scratch, [
+        ('Gen_Pay.cfg', 'MC_Pay.tla', {}, dict(props.LIFE), 'trace-f', 30 if quick else 600, 16),
+        ('Gen_Stake.cfg', 'MC_Stake.tla', props.STAKE_X, dict(props.REMOVE_ONLY), 'trace-f', 30 if quick else 600, 16)], seed_mul=41)
+    jobs += tjobs
+    results += tres
     violations, infra = [], 0
     for job, res in zip(jobs, results):
         ks = set(props.kinds_of(res))
@@ -132,7 +140,9 @@ def check(pid, tier, scratch, replay):
         seen.add(sig)
         p = vlib.save_replay(pid, '%s-%s' % (tier, vlib.short_hash(json.dumps(job['opt']))), dict(property=pid, universe=job['u'], opt=job['opt'], result=res))
         print('VIOLATION property=%s replay=%s' % (pid, p))
-        print('  schedule: %s (tasks %s, model final state: %s)' % (' '.join(job['opt'].get('actions') or ['free-running']), job['opt']['tasks'], job['opt']['final']))
+        print('  schedule: %s (tasks %s, model final state: %s)' % (' '.join(job['opt'].get('actions') or ['free-running']), job['opt'].get('tasks'), job['opt'].get('final')))
+        if job['mode'] == 'trace-f':
+            print('  free-running replay with injected storage faults; history: %s' % props.describe(job['h']))
         for d in (res.get('diffs') or [])[:2]:
             print('  %s: want=%s got=%s' % (d['kind'], d['want'], d['got'][:1500]))
         if res.get('err'):
@@ -141,6 +151,7 @@ def check(pid, tier, scratch, replay):
                samples=[dict(schedule=j['opt']['actions'], tasks=j['opt']['tasks'], final=j['opt']['final']) for j in jobs[:4]],
                free_running_traces_judged_by_TLC=len(tr), free_running_trace_events=events, free_running_without_stop_request=sum(1 for i, _ in tr if jobs[i]['opt']['final'] == 'idle'),
                trace_spec='spec/StopTrace.tla (every trace accepted: all events consumed)',
+               free_running_traces_with_injected_faults_judged_by_tlc=tjudged, fault_trace_judge_states=tstates,
                model_runs=runs, maximal_behaviours_of_model=total, inconclusive=infra,
                liveness_checked=['StopReturns', 'TipsProcessed', 'TasksFinish'],
                rule='every maximal behaviour of spec/Stop.tla for three scenarios (removal + a tip, two-batch import, tips only); those whose steps after close(quit) are forced (no select with two ready cases) are replayed: each model action releases the goroutine(s) performing it from its scheduling gate and waits for the next gate; the final state says whether Stop must have returned')
